@@ -169,6 +169,30 @@ def check_nnls(A, y, x, r, cond, tag):
     return vs
 
 
+def preservation(A, y, clp, r, cond, tag):
+    """callers hand the same matrix to every global index: the kernels must leave their inputs as they were,
+    whatever the memory layout (a one-column matrix is both C- and Fortran-contiguous)"""
+    from glotaran.optimization.nnls import residual_nnls
+    from glotaran.optimization.variable_projection import residual_variable_projection
+
+    m, n = A.shape
+    out = []
+    for order in ("C", "F"):
+        Ain, yin = np.array(A, order=order), y.copy()
+        for fname, f in (("variable_projection", residual_variable_projection), ("non_negative_least_squares", residual_nnls)):
+            try:
+                _, r2 = f(Ain, yin)
+            except (RuntimeError, np.linalg.LinAlgError):
+                continue
+            if not (np.array_equal(Ain, A) and np.array_equal(yin, y)):
+                out.append((fname, V("kernel-modified-its-input", layout=order, tag=tag)))
+                Ain, yin = np.array(A, order=order), y.copy()
+            if fname == "variable_projection" and order == "F":
+                if norm(np.asarray(r2) - r) > 100 * m * n * EPS * (norm(A) * norm(clp) + norm(y)) * max(1.0, cond) + 1e-300:
+                    out.append((fname, V("vp-result-depends-on-memory-layout", tag=tag)))
+    return out
+
+
 def case_matrix(case):
     from glotaran.optimization.nnls import residual_nnls
     from glotaran.optimization.variable_projection import residual_variable_projection
@@ -189,6 +213,8 @@ def case_matrix(case):
         clp, r = residual_variable_projection(A.copy(), y.copy())
         for v in check_vp(A, y, np.asarray(clp), np.asarray(r), cond, tag):
             vs.append(dict(v, func="instance", case=dict(case, data=tag, function="variable_projection")))
+        for fname, v in preservation(A, y, np.asarray(clp), np.asarray(r), cond, tag):
+            vs.append(dict(v, func="instance", case=dict(case, data=tag, function=fname)))
         try:
             x, r2 = residual_nnls(A.copy(), y.copy())
         except (RuntimeError, np.linalg.LinAlgError) as e:
@@ -214,9 +240,12 @@ def case_instance(case):
     if case["function"] == "variable_projection":
         clp, r = residual_variable_projection(A.copy(), y.copy())
         vs = check_vp(A, y, np.asarray(clp), np.asarray(r), cond, case["data"])
+        vs += [v for f, v in preservation(A, y, np.asarray(clp), np.asarray(r), cond, case["data"]) if f == case["function"]]
     else:
         x, r = residual_nnls(A.copy(), y.copy())
         vs = check_nnls(A, y, np.asarray(x), np.asarray(r), cond, case["data"])
+        c0, r0 = residual_variable_projection(A.copy(), y.copy())
+        vs += [v for f, v in preservation(A, y, np.asarray(c0), np.asarray(r0), cond, case["data"]) if f == case["function"]]
     return core.ok(key=None, outcome=len(vs), violations=vs)
 
 
